@@ -433,6 +433,20 @@ func (g *LibGen) History(nSteps int) []Op {
 		case c < 18:
 			ops = append(ops, Op{"sync", sDisk}, Op{"open", true})
 		case c < 19:
+			if g.r.Chance(1, 4) {
+				// Create again in place, with an open flag that allows an existing file: the file
+				// takes the length of the new layout at once (shorter or longer than before)
+				nl := genLayout(g.r, false)
+				for nl.FileSize() > 60000 {
+					nl = genLayout(g.r, false)
+				}
+				g.lay = nl
+				ops = append(ops, Op{"sync", sDisk}, Op{"drop", false},
+					Op{fmt.Sprintf("createover %s %d %08x", g.lay, g.agg, g.xff), true},
+					Op{fmt.Sprintf("disk %d", g.lay.HdrSize()), true}, Op{"header", true},
+					Op{"sync", sDisk}, Op{fmt.Sprintf("disk %d", g.lay.HdrSize()), true}, Op{"open", true}, Op{"header", true})
+				break
+			}
 			if g.r.Chance(1, 3) {
 				// Create on a path that exists is refused and leaves the file alone
 				ops = append(ops, Op{"sync", sDisk}, Op{"drop", false}, Op{g.createLine(), true},
